@@ -108,6 +108,9 @@ var allCodes = []codes.Code{codes.OK, codes.Canceled, codes.Unknown, codes.Inval
 
 var utf8Samples = []string{"", "x", "plain message", "ünïcödé ✓ 日本語", strings.Repeat("long-", 200), "with\nnewline\tand tab", "percent %d %s", "\u0000nul", "emoji 🙂🙃"}
 
+// legal values for non -bin metadata keys are printable ASCII only (real grpc-go rejects anything else)
+var asciiSamples = []string{"", "x", "plain message", "with spaces  and ~!@#$%^&*()_+{}|:<>?", strings.Repeat("long-", 200), "percent %d %s %%", "a=b;c=d, e", "UPPER lower 0123456789"}
+
 func genMD(rng *rand.Rand, prefix string) metadata.MD {
 	switch rng.Intn(6) {
 	case 0:
@@ -121,7 +124,7 @@ func genMD(rng *rand.Rand, prefix string) metadata.MD {
 		k := fmt.Sprintf("%s-k%d", prefix, rng.Intn(4))
 		nv := 1 + rng.Intn(3)
 		for j := 0; j < nv; j++ {
-			md.Append(k, utf8Samples[rng.Intn(len(utf8Samples))]+fmt.Sprint(rng.Intn(1000)))
+			md.Append(k, asciiSamples[rng.Intn(len(asciiSamples))]+fmt.Sprint(rng.Intn(1000)))
 		}
 	}
 	if rng.Intn(2) == 0 {
